@@ -48,6 +48,24 @@ def run(sc):
             sig = inspect.Signature([inspect.Parameter('p0', inspect.Parameter.POSITIONAL_OR_KEYWORD, annotation=ann)])
             msg = TaskiqMessage(task_id='i', task_name='t', labels={}, args=[dict(val)], kwargs={}); parse_params(sig, {'p0': ann}, msg)
             if type(msg.args[0]) is not ann: fails.append({'key': f"same-repr annotations, {'A then B' if first is A else 'B then A'}", 'failed_clauses': [f"C08: a value annotated with model {ann!r} (fields {list(ann.model_fields)}) arrived as {type(msg.args[0])!r} with fields {list(getattr(type(msg.args[0]), 'model_fields', {}))}: converted by another annotation's adapter"]})
+    # user validation code that raises RuntimeError (not ValueError) while converting: "not convertible" -> the value is delivered unchanged, positionally or by keyword
+    import dataclasses
+    @dataclasses.dataclass
+    class Strict:
+        v: int
+        def __post_init__(self):
+            if self.v < 0: raise RuntimeError("validation code failed")
+    for how in ('positional', 'keyword'):
+        for val in ({'v': -1}, {'v': 2}):
+            n += 1
+            sig = inspect.Signature([inspect.Parameter('p0', inspect.Parameter.POSITIONAL_OR_KEYWORD, annotation=Strict), inspect.Parameter('p1', inspect.Parameter.POSITIONAL_OR_KEYWORD, annotation=int)])
+            msg = TaskiqMessage(task_id='i', task_name='t', labels={}, args=[dict(val)] if how == 'positional' else [], kwargs={'p1': '4'} if how == 'positional' else {'p0': dict(val), 'p1': '4'})
+            try: parse_params(sig, {'p0': Strict, 'p1': int}, msg)
+            except BaseException as ex:
+                fails.append({'key': f"RuntimeError-in-validator/{how}/{val}", 'failed_clauses': [f"C08: parse_params raised {type(ex).__name__} for a {how} argument whose conversion failed with RuntimeError in user validation code (it must be delivered unchanged)"]}); continue
+            got = msg.args[0] if how == 'positional' else msg.kwargs['p0']
+            want_ = dict(val) if val['v'] < 0 else Strict(2)
+            if got != want_ or msg.kwargs.get('p1') != 4: fails.append({'key': f"RuntimeError-in-validator/{how}/{val}", 'failed_clauses': [f"C08: {how} argument {val} annotated with a validating dataclass arrived as {got!r}, p1 as {msg.kwargs.get('p1')!r}"]})
     return {'reproduced': bool(fails), 'runs': n, 'n_failures': len(fails), 'failures': fails[:400], 'bound': 'signatures with <= 3 positional-or-keyword parameters (un-annotated / int / Any / Set[int] / float), values from ["3","x",None,7,[],0]; two same-named pydantic models in both orders'}
 
 if __name__ == '__main__':
